@@ -11,7 +11,8 @@ package protocol
 // the current round is one of the announced rounds -- so "all received" is never vacuously true for a round that
 // expects messages (every Finalize hands back a round within the announced range: interface contract of Finalize).
 //@ pred hq(h *MultiHandler) := h.messages != nil && h.broadcast != nil && forall(n, round.Number, (2 <= n && n <= h.currentRound.FinalRoundNumber()) ==> (h.broadcast[n] != nil && h.messages[n] != nil)) && h.currentRound.Number() <= h.currentRound.FinalRoundNumber()
-//@ pred hinv(h *MultiHandler) := hshape(h) && hq(h) && (closed(h.out) == fin(h)) && !(h.err != nil && h.result != nil)
+// (a recorded error always carries its cause: Error() on the value Result() returns never dereferences nil)
+//@ pred hinv(h *MultiHandler) := hshape(h) && hq(h) && (closed(h.out) == fin(h)) && !(h.err != nil && h.result != nil) && (h.err != nil ==> h.err.Err != nil)
 //@ pred hopen(h *MultiHandler) := hshape(h) && hq(h) && !closed(h.out) && h.err == nil && h.result == nil
 
 // A StartFunc either fails or yields the first round of a session (refined by the start closures of each protocol).
@@ -279,9 +280,16 @@ package protocol
 //@   nopanic[C05,C17]
 //@   requires h != nil && excl(h.mtx) && hshape2(h)
 //@   modifies nothing
+// (C03, C07) a round that expects the peer's message is left only with that message stored
+//@   ensures[C03,C07] result == (!expectsP2P(h.round) || h.messages[h.round.Number()] != nil)
 
 //@ func (*TwoPartyHandler).verifyMessage
 //@   nopanic[C05,C17]
+// (C03, C07) the peer's message reaches StoreMessage only after VerifyMessage accepted it, and both run on the current round
+//@   assert_at[C03,C07] StoreMessage "r.StoreMessage(roundMsg)": called(VerifyMessage) && r == h.round
+//@   assert_at[C03,C07] VerifyMessage "r.VerifyMessage(roundMsg)": r == h.round && roundMsg.From == msg.From
+//@   keeps ownmaps
+//@   ensures h.round == old(h.round) && h.messages == old(h.messages)
 //@   requires h != nil && excl(h.mtx) && hshape2(h)
 //@   modifies shared
 //@   ensures hshape2(h)
@@ -290,9 +298,15 @@ package protocol
 //@   nopanic[C05,C17]
 //@   requires msg != nil && r != nil
 //@   modifies shared
+//@   keeps ownmaps
+//@   ensures[C03,C04] result1 == nil ==> (result0.From == msg.From && result0.To == msg.To)
 
 //@ func (*TwoPartyHandler).advance
 //@   nopanic[C05,C17]
+// (C03, C07) a round is finalized only after the message it expects was stored by the handler and went through
+// verifyMessage in this very step (verifyMessage returns an error, and the handler aborts, unless VerifyMessage and
+// StoreMessage both accepted)
+//@   assert_at[C03,C07] Finalize "h.round.Finalize(out)": lastresult(canAdvance) && called(verifyMessage) && (expectsP2P(h.round) ==> (msg != nil && msg == h.messages[h.round.Number()]))
 //@   panic_unreachable_under_requires
 //@   requires h != nil && excl(h.mtx) && hopen2(h)
 //@   modifies all
@@ -305,6 +319,13 @@ package protocol
 //@   requires create != nil
 //@   ensures[C17] result1 == nil ==> (result0 != nil && hinv2(result0))
 //@   ensures[C17,C20] result1 != nil ==> result0 == nil
+
+// The error a handler reports (C04, C05): printable whenever it carries its cause, which every error recorded by abort does.
+//@ func (Error).Error
+//@   nopanic[C05]
+//@   requires e.Err != nil
+//@   modifies nothing
+//@   allocates
 
 // ---------------------------------------------------------------- wire messages (C15, C05)
 
